@@ -328,6 +328,10 @@ def mode_unit(args):
                     mns = tuple(mn_of.get(h, "?") for h in p)
                     cfg = "%s/%s" % ("noalias" if na else "alias", "trace" if mt else "notrace")
                     sig = (isa, mname, "+".join(mns), cls.split(":")[0] if cls.startswith("compose") else cls)
+                    if na and not mt and cls == "mem":
+                        # one root cause: with the no-aliasing assumption and memory tracing off a map does not record
+                        # its stores in the ordered write list, so composing it with a state replays none of them
+                        sig = (isa, mname, "stores-not-replayed-without-memtrace", cls)
                     fails.append(Failure(sig, "%s %s program %s [%s] state %d config %s: %s" % (isa, mname, p, " ; ".join(mns), v, cfg, detail),
                                          {"isa": isa, "mode": mode, "prog": p, "state": v, "noaliasing": na, "memtrace": mt},
                                          rank=len(p)).to_json())
